@@ -89,3 +89,46 @@ def kk_mc_replay(ck, maxn, maxv, maxk, invariants=("Conservation", "SpreadBounde
     fails = ck.judge("JDrift", traces, {"DRIFT"}, what="spec->code replay of KK (%d stimuli)" % len(recs), count_events=lambda t: 1)
     ck.classify(fails, lambda fl: {"alg": "kk", "key": fl["trace"]["key"], "model": fl["trace"]["m"], "code": fl["trace"]["c"]})
     ck.cat("kk_model_replays", len(recs))
+
+
+def dp_mc(ck, maxn, maxv, maxk):
+    cfg = ("CONSTANTS MaxN = %d MinV = 0 MaxV = %d MaxK = %d Objs = {\"diff\", \"maxsum\", \"minsum\", \"klargest\", \"ksmallest\"}\nINIT Init\nNEXT Next\n"
+           "INVARIANT Complete\nINVARIANT PathsConsistent\nINVARIANT FinalOK\n" % (maxn, maxv, maxk))
+    return ck.mc("DP", cfg, "MC dynamic-programming machine n<=%d v<=%d k<=%d x 5 objectives: layers complete, paths consistent, any minimal pick optimal" % (maxn, maxv, maxk),
+                 coverage=True, required_actions=("Layer", "Pick"))
+
+
+def multifit_mc_replay(ck, maxn, maxv, maxk, iters=(0, 1, 2, 5, 10)):
+    cfg = ("CONSTANTS MaxN = %d MinV = 0 MaxV = %d MaxK = %d Iters = {%s}\nINIT Init\nNEXT Next\nINVARIANT HiFeasible\nINVARIANT FinalOK\nINVARIANT Emit\n"
+           % (maxn, maxv, maxk, ", ".join(map(str, iters))))
+    r = ck.mc("Multifit", cfg, "MC + GEN multifit machine (exact rational capacities) n<=%d v<=%d k<=%d iterations %s: HiFeasible at every probe, FinalOK" % (maxn, maxv, maxk, list(iters)),
+              coverage=True, required_actions=("Probe", "Final"))
+    recs = [dict(vals=e["vals"], k=e["k"], best=e["best"], alg="multifit", kw={"iterations": e["it"]}) for e in r.emitted]
+    traces = [t for p in core.pmap(drive.replay_simple, recs) for t in p]
+    fails = ck.judge("JDrift", traces, {"DRIFT"}, what="spec->code replay of multifit (%d stimuli; rational model vs float code)" % len(recs), count_events=lambda t: 1)
+    ck.classify(fails, lambda fl: {"alg": "multifit", "key": fl["trace"]["key"], "model": fl["trace"]["m"], "code": fl["trace"]["c"]})
+    ck.cat("multifit_model_replays", len(recs))
+
+
+def snp_mc_replay(ck, maxn, maxv, ks=(2, 3, 4)):
+    cfg = ("CONSTANTS MaxN = %d MinV = 0 MaxV = %d Ks = {%s}\nINIT Init\nNEXT Next\nINVARIANT IncumbentReal\nINVARIANT Optimal\nINVARIANT RootAliveUntilOptimal\nINVARIANT Emit\nPROPERTY Monotone\n"
+           % (maxn, maxv, ", ".join(map(str, ks))))
+    r = ck.mc("SNP", cfg, "MC + GEN sequential-number-partitioning machine (frames + inclusion/exclusion tree with windows raised on improvement) n<=%d v<=%d k in %s" % (maxn, maxv, list(ks)),
+              coverage=True, required_actions=("TreeStep", "Return", "Base2"))
+    recs = r.emitted
+    traces = [t for p in core.pmap(drive.replay_snp, recs) for t in p]
+    fails = ck.judge("JDrift", traces, {"DRIFT"}, what="spec->code replay of SNP (%d stimuli): sums and number of two-way base cases" % len(recs), count_events=lambda t: 1)
+    ck.classify(fails, lambda fl: {"alg": "snp", "key": fl["trace"]["key"], "model": fl["trace"]["m"], "code": fl["trace"]["c"]})
+    ck.cat("snp_model_replays", len(recs))
+
+
+def rnp_mc_replay(ck, maxn, maxv, ks=(2, 3, 4, 5)):
+    cfg = ("CONSTANTS MaxN = %d MinV = 0 MaxV = %d Ks = {%s}\nINIT Init\nNEXT Next\nINVARIANT IncumbentReal\nINVARIANT Optimal\nINVARIANT Emit\nPROPERTY Monotone\n"
+           % (maxn, maxv, ", ".join(map(str, ks))))
+    r = ck.mc("RNP", cfg, "MC + GEN recursive-number-partitioning machine (tree frames for 3/5 bins, split frames for 4) n<=%d v<=%d k in %s" % (maxn, maxv, list(ks)),
+              coverage=True, required_actions=("TreeStep", "SplitStep", "SplitReturn", "TreeReturn", "Base2"))
+    recs = r.emitted
+    traces = [t for p in core.pmap(drive.replay_rnp, recs) for t in p]
+    fails = ck.judge("JDrift", traces, {"DRIFT"}, what="spec->code replay of RNP (%d stimuli): difference and number of two-way base cases" % len(recs), count_events=lambda t: 1)
+    ck.classify(fails, lambda fl: {"alg": "rnp", "key": fl["trace"]["key"], "model": fl["trace"]["m"], "code": fl["trace"]["c"]})
+    ck.cat("rnp_model_replays", len(recs))
